@@ -103,7 +103,9 @@ func NewMethod(proxiedHandler, method interface{}, methodName string, middleware
 	// As of go1.7, reflect.MethodByName no longer returns unexported methods
 	// (https://golang.org/doc/go1.7). To avoid exporting generated internal
 	// methods, construct a reflect.Method ourselves.
-	if unicode.IsLower(rune(methodName[0])) {
+	// Only names that start with an upper case letter are exported (a leading
+	// underscore, as in _ping, is not).
+	if !unicode.IsUpper(rune(methodName[0])) {
 		reflectMethod = reflect.Method{
 			Name: methodName,
 			Type: reflect.TypeOf(method),
